@@ -27,9 +27,10 @@ def bounds_for(tier, cap_mode):
 def _job(args):
     cap_mode, handler, A, D, P, Q, pid, timeout_ms = args[:8]
     order = args[8] if len(args) > 8 else 'ch'
+    nprod = args[9] if len(args) > 9 else 1
     prog = _PROG
     t0 = time.time()
-    res = {'config': {'capacity': cap_mode, 'handler': handler, 'A': A, 'D': D, 'P': P, 'Q': Q, 'builder_order': order}, 'findings': [], 'queries': [],
+    res = {'config': {'capacity': cap_mode, 'handler': handler, 'A': A, 'D': D, 'P': P, 'Q': Q, 'builder_order': order, 'producers': nprod}, 'findings': [], 'queries': [],
            'error': None, 'programs': {}, 'vacuity': {}}
     try:
         x = qm.Extraction(prog, cap_mode, handler, timeout_ms=60000, order=order)
@@ -90,7 +91,7 @@ def _job(args):
                 which = [c for (p_, c), f in vs.items() if z3.is_true(ms.eval(f, model_completion=True))]
                 res['findings'].append({'prop': 'C15', 'clause': ','.join(which), 'static': False, 'scenario': {'kind': 'queue-sampler'},
                                         'detail': 'schedule: ' + ' | '.join('%s:%s' % (s_['thread'], s_['op']) for s_ in steps)})
-        pr = qm.Product(x, A, D, P, Q, timeout_ms=timeout_ms)
+        pr = qm.Product(x, A, D, P, Q, timeout_ms=timeout_ms, producers=nprod)
         pr.encode()
         res['edges'] = len(pr.E)
         v = {k: c for k, c in pr.violations().items() if k[0] == pid}
@@ -101,6 +102,8 @@ def _job(args):
             'queue-full-refusal': z3.Or(*[S[t]['oks'] != S[t]['na'] for t in range(D + 1)]) if cap_mode == 'bounded' else None,
             'panic-and-respawn': z3.Or(*[z3.And(pr.terminal[t], z3.UGT(S[t]['penv'], 0), z3.UGE(S[t]['dn'], 2)) for t in range(D)]) if P > 0 else None,
         }
+        if nprod == 2:
+            twins = {'both-producers-active': z3.Or(*[z3.And(z3.UGE(S[t]['oks'], 2), z3.UGE(S[t]['own:P1'], 1)) for t in range(D + 1)])}
         for name, c in twins.items():
             if c is None:
                 continue
@@ -166,6 +169,9 @@ def run(out, replay_path=None):
         for handler in (True, False):
             for (A, D, P, Q) in bounds_for(out.tier, cap_mode):
                 jobs.append((cap_mode, handler, A, D, P, Q, pid, 3000000 if thorough else 600000, 'ch'))
+    if thorough:
+        # two producer threads (each with its own handles; a clone may be handed to the other thread)
+        jobs.append(('bounded', True, 4, 18, 0, 1, pid, 3000000, 'ch', 2))
     # builder options given in the other order (configuration must not depend on it)
     jobs.append(('bounded', True, 0, 0, 0, 1, pid, 60000, 'hc'))
     ctx = mp.get_context('fork')
